@@ -330,12 +330,13 @@ func c13CheckCompareOne(ai int, x1, x2 []float64, exact bool) string {
 		if !(math.Abs(sw.P-base.P) <= 1e-12) {
 			return fmt.Sprintf("%s.Compare(%v,%v): p = %v but %v with the samples swapped", as.name, x1, x2, base.P, sw.P)
 		}
-		for _, f := range []float64{2, 1024, 1e3} {
+		// a common positive rescaling, up and far down (nanosecond-sized and smaller magnitudes)
+		for _, f := range []float64{2, 1024, 1e3, 1.0 / (1 << 30), 1.0 / (1 << 60), 1e-9} {
 			for _, rev := range []bool{false, true} {
 				r := as.a.Compare(mk(x1, 0.05, f, rev), mk(x2, 0.05, f, !rev))
 				tol := 1e-12
-				if as.name == "AssumeNormal" && f == 1e3 {
-					tol = 1e-9 // ×1000 is not exact in binary
+				if as.name == "AssumeNormal" && (f == 1e3 || f == 1e-9) {
+					tol = 1e-9 // ×1000 and ×1e-9 are not exact in binary
 				}
 				if !(math.Abs(r.P-base.P) <= tol) {
 					return fmt.Sprintf("%s.Compare(%v,%v): p = %v, but %v after reordering and rescaling by %v", as.name, x1, x2, base.P, r.P, f)
@@ -375,7 +376,7 @@ func c13Compare(c *mc.Check, maxN int) {
 		}
 		return msg
 	}
-	f := c.Family("comparisons", fmt.Sprintf("every pair of multisets of size 1…%d over %v plus structured larger pairs, under all three assumptions: sizes reported, p ∈ [0,1], symmetric, invariant under reordering each sample and under ×2, ×1024, ×1000, equal to the exact permutation p-value for untied pairs, Alpha carried = the first sample's threshold for thresholds %v under the models that perform a test, delta rendered as a percentage ⇔ p ≤ Alpha; non-trivial = pairs with different samples", maxN, vals, c13Alphas), replay)
+	f := c.Family("comparisons", fmt.Sprintf("every pair of multisets of size 1…%d over %v plus structured larger pairs, under all three assumptions: sizes reported, p ∈ [0,1], symmetric, invariant under reordering each sample and under ×2, ×1024, ×1000, ×2^-30, ×2^-60, ×1e-9, equal to the exact permutation p-value for untied pairs, Alpha carried = the first sample's threshold for thresholds %v under the models that perform a test, delta rendered as a percentage ⇔ p ≤ Alpha; non-trivial = pairs with different samples", maxN, vals, c13Alphas), replay)
 	if c.Replaying() {
 		return
 	}
